@@ -346,6 +346,9 @@ EXTRA = {
     "C03": " every_cell_stroke_lives_on_in_one_fragment: each cell fragment is carried by one merged fragment of its scope whose span "
            "holds the cell. signal_levels_are_the_sources: the signal intensities and the levels of the three overlap predicates are "
            "regenerated from property.rs.",
+    "C05": " every_rounded_box_is_endorsed: the four shortened sides and the four quarter arcs of any rounded box (corner radius r > 0, "
+           "sides of positive length, each side solid or dashed), in the order the pipeline leaves them, are endorsed as exactly the "
+           "rectangle of the box with radius r; a kernel-evaluated instance shows the pipeline produces that list for a drawn box.",
     "C07": " fragment_ranks_are_the_sources: the tie-break of the per-cell fragment order (Fragment::rank) is regenerated from fragment.rs.",
     "C09": " no_emitted_group_has_collinear_touching_lines: every group of the whole endorsement stage (every <g>) is a contact group "
            "of one span, so it holds no two plain lines that are collinear and touching.",
